@@ -210,3 +210,31 @@ def c06(ctx, t0):
     return finish(ctx, 'exploration', res, COMMON_ASSUME + [
         'reference authorisation table + sequential store model in go/ovl/c06_test.go; expired/future tokens are minted with the test-owned factory (same handlers as newWebHandler), a subset runs through newWebHandler itself',
         'bodies the JSON decoder accepts although they are unusual (extra field, trailing bytes, upper-case keys, 1 MiB padding) are judged like the valid body: if accepted, the authorisation rules apply'], floors, t0)
+
+
+@plan('C12')
+def c12(ctx, t0):
+    res = []
+    if want(ctx, 'upgrades'):
+        res.append(ovl_stage(ctx, 'upgrades', 'TestVerifC12', T(ctx, 900, 5400)))
+    floors = {'records_rewritten': (counters(res, 'records_rewritten'), 30), 'failed_logins': (counters(res, 'failed_logins'), 100),
+              'logins_with_upgrades_off': (counters(res, 'logins_with_upgrades_off'), 100), 'remote_upgrades_observed': (counters(res, 'remote_upgrades_observed'), 5),
+              'upgradeable_logins_policy_rejects': (counters(res, 'upgradeable_logins_policy_rejects'), 1), 'logins_after_reload': (counters(res, 'logins_after_reload'), 10)}
+    return finish(ctx, 'exploration', res, COMMON_ASSUME + [
+        'convergence is restated without timing: the local upgrade sits in the FIFO update queue, so after the login and one barrier update have returned the rewrite must have happened',
+        'waiting for the asynchronous remote POST uses the remote.done hook event with a 20 s watchdog (expiry = inconclusive)',
+        'the zxcvbn library is trusted for the policy verdict'], floors, t0)
+
+
+@plan('C17')
+def c17(ctx, t0):
+    ctx.build_agent()
+    res = []
+    if want(ctx, 'policy'):
+        res.append(ovl_stage(ctx, 'policy', 'TestVerifC17', T(ctx, 900, 5400)))
+    floors = {'policy_pass': (counters(res, 'policy_pass'), 50), 'policy_fail': (counters(res, 'policy_fail'), 50),
+              'condition_strings:invalid': (counters(res, 'condition_strings:invalid'), 40), 'write_attempts:cli-add': (counters(res, 'write_attempts:cli-add'), 10),
+              'write_attempts:http-update-oldpw': (counters(res, 'write_attempts:http-update-oldpw'), 5)}
+    return finish(ctx, 'exploration', res, COMMON_ASSUME + [
+        'the zxcvbn library is trusted: the property defines the policy by it; the reference calls zxcvbn.PasswordStrength(pw, [user, "whawty"]) itself and applies the configured comparison',
+        'condition strings in a common number syntax other than plain decimal (1e9, 40.5, +3, 03, 0x..) may be refused or accepted, but if accepted must be enforced with the written value'], floors, t0)
